@@ -356,6 +356,7 @@ func genC13(c *fw.Ctx) {
 	rec(maxSel)
 	genC13Tree(c)
 	genC13Shared(c)
+	genC13Case(c)
 	if docTap != nil {
 		return
 	}
@@ -701,6 +702,86 @@ func genC13Shared(c *fw.Ctx) {
 				}
 				if strings.Join(got, ",") != strings.Join(want, ",") || (len(want) == 0 && pv != nil) {
 					c.Violate("path-variables", "C13:shared-binding:"+bindClass(got, want), fmt.Sprintf("%s: interaction %s has pathVariables %v, reference binding %v", label, id, got, want), map[string]interface{}{"text": text})
+					break
+				}
+			}
+		}
+		return true
+	})
+}
+
+// genC13Case: prefixes that differ in letter case only are different prefixes. Four paths -
+// /c/{id}, /C/{id} and one static segment below each - in ALL orders x each of the two {id}
+// prefixes declared by the shorter path, by the longer one, or not at all (with different schemas).
+func genC13Case(c *fw.Ctx) {
+	opt := drv.Options{FixedSeed: true}
+	paths := []string{"/c/{id}", "/C/{id}", "/c/{id}/x", "/C/{id}/y"}
+	methods := []string{"GET", "POST", "PUT", "PATCH"}
+	body := map[byte]string{'c': "{\n  \"id\": 1\n}", 'C': "{\n  \"id\": \"up\"\n}"}
+	scalar := map[byte]string{'c': "id=1", 'C': "id=up"}
+	permutations(len(paths), func(order []int) bool {
+		for code := 0; code < 9; code++ {
+			if c.Expired() {
+				return false
+			}
+			if !c.Next() {
+				continue
+			}
+			c.Count("evaluations", 1)
+			decl := map[byte]int{'c': code % 3, 'C': code / 3} // 0 nobody, 1 the shorter path, 2 the longer path
+			nodes := []*doc.Node{doc.Jsight()}
+			for _, pi := range order {
+				m := doc.N(methods[pi], paths[pi]).WithKids(doc.N("200", "any"))
+				m.Paren = true
+				cs := paths[pi][1]
+				if (decl[cs] == 1 && pi < 2) || (decl[cs] == 2 && pi >= 2) {
+					m.Kids = append([]*doc.Node{doc.N("Path").WithBody(body[cs])}, m.Kids...)
+				}
+				nodes = append(nodes, m)
+			}
+			text := doc.Text(nodes)
+			label := fmt.Sprintf("case-twins order=%v declared=%v", order, decl)
+			c.Describe(label)
+			c.Distinct(text)
+			o := drv.RunMem("root.jst", text, opt)
+			if docTap != nil {
+				docTap(label, text, o)
+				continue
+			}
+			if o.Crashed() {
+				c.Count("skipped_crash", 1)
+				continue
+			}
+			if !o.OK() {
+				c.Violate("valid-paths-rejected", "C13:case-rejected:"+firstWordsN(o.Msg, 4), label+": "+o.Short(), map[string]interface{}{"text": text})
+				continue
+			}
+			cat, _, err := jsonx.Parse([]byte(o.JSON))
+			if err != nil {
+				continue
+			}
+			in := cat.Get("interactions")
+			for _, pi := range order {
+				id := "http " + methods[pi] + " " + paths[pi]
+				e := in.Get(id)
+				if e == nil {
+					c.Violate("interaction-missing", "C13:interaction-missing", label+": no interaction "+id, map[string]interface{}{"text": text})
+					break
+				}
+				var want, got []string
+				if decl[paths[pi][1]] != 0 {
+					want = append(want, scalar[paths[pi][1]])
+				}
+				pv := e.Get("pathVariables")
+				if pv != nil {
+					if ch := pv.Path("schema", "content", "children"); ch != nil {
+						for _, x := range ch.A {
+							got = append(got, x.Get("key").Str()+"="+x.Get("scalarValue").Str())
+						}
+					}
+				}
+				if strings.Join(got, ",") != strings.Join(want, ",") || (len(want) == 0 && pv != nil) {
+					c.Violate("path-variables", "C13:case-binding:"+bindClass(got, want), fmt.Sprintf("%s: interaction %s has pathVariables %v, reference binding %v", label, id, got, want), map[string]interface{}{"text": text})
 					break
 				}
 			}
